@@ -122,7 +122,7 @@ Definition ex_rs : file :=
   mk_file "/case.rs"
     [mk_scope SFunc None [] [mk_site CAssign "val" [LInt RHex [[1;15;3;2]] false ""] 2; mk_site CUpper "MAX_V" [LInt RDec [[9]] false ""] 3];
      mk_scope SFunc (Some ["#[cfg(test)]"]) ["#[test]"] [mk_site CAssign "val" [LInt RDec [[3;1;1]] false "_i32"] 7]].
-Definition ex_cfg : mconfig := mk_cfg (Some [(7, 0)%Z]) None.
+Definition ex_cfg : mconfig := mk_cfg (Some [(7, 0)%Z]) None None.
 
 Example C02_nonvacuous :
   file_good MPy ex_py = true /\ file_good MTs ex_ts = true /\ file_good MRs ex_rs = true
